@@ -13,11 +13,11 @@ structure DState where
 def showCb (s : St) : String := if s.cb.isEmpty then "-" else ",".intercalate s.cb.reverse
 
 def showFb (s : St) : String :=
-  if s.fbUnk then s!"fb={s.fb.w}:{s.fb.h}:?" else s!"fb={s.fb.w}:{s.fb.h}:{hex8 (fbCrc s.fmt s.fb)}"
+  if s.fbUnk || s.fb.px.any (· ≥ poison) then s!"fb={s.fb.w}:{s.fb.h}:?" else s!"fb={s.fb.w}:{s.fb.h}:{hex8 (fbCrc s.fmt s.fb)}"
 
 /-- the specification decoders disagree with the client model on this stream -/
 def specDiff (s : St) : String :=
-  if s.specUnk ∨ s.fbUnk then "" else
+  if s.specUnk ∨ s.fbUnk ∨ s.fb.px.any (· ≥ poison) then "" else
   if s.specFb.w = s.fb.w ∧ s.specFb.h = s.fb.h ∧ fbCrc s.fmt s.specFb = fbCrc s.fmt s.fb then "" else " spec=DIFF"
 
 def stateLine (tag : String) (s : St) (left : Nat) : String :=
